@@ -199,6 +199,12 @@ def _main(a, seed, t_start):
             print('ENGINE ERROR in unit %s:\n%s' % (n, e))
         print('CHECKER-ERROR property=%s' % prop)
         return 3
+    broken = [r for r in all_results if r['name'].startswith('engine.') and r['verdict'] != 'proved']
+    if broken:
+        for r in broken:
+            print('ENGINE SELF-CHECK FAILED: %s -- %s' % (r['name'], r['detail']))
+        print('CHECKER-ERROR property=%s (a library model disagrees with CPython: no verdict is given)' % prop)
+        return 3
     n_obl = len(all_results)
     if n_obl < spec.floor and not a.only:
         print('CHECKER-ERROR property=%s: only %d obligations generated (floor %d): vacuous run' % (prop, n_obl, spec.floor))
